@@ -159,7 +159,7 @@ pub fn gen(seed: u64, cases: usize, flavour: &str, path: &str) {
                 let reps = if batchy {
                     let sizes: [u64; 16] = [1, 2, 3, 7, 19, 20, 21, 22, 32, 33, 40, 64, 65, 100, 129, 300];
                     let mut n = *g.rng.pick(&sizes);
-                    if thorough && g.rng.chance(1, 6) {
+                    if thorough && g.rng.chance(1, 60) {
                         n = 500 + g.rng.below(4500);
                     }
                     n
